@@ -1,6 +1,18 @@
 import Tahoe.Mutable.CheckRepairLemmas
 /-! C14 — mutable check and repair preserve the newest content (property theorems; helper lemmas live
     in `Tahoe/Mutable/CheckRepairLemmas.lean` and `ServerMapLemmas.lean`). -/
+/-!
+## Coverage of the statement (properties.jsonl C14)
+
+| clause of the statement | theorem(s) |
+|---|---|
+| "reported healthy exactly when there is a single recoverable version with N distinct shares and no other versions" | `healthy_iff` (for every servermap handed to `_make_checker_results`; with verify the verifier removes bad shares from that map first — that step is correspondence + monitor only) |
+| "Repair without force never discards a newer unrecoverable version" | `repair_refuses_newer_unrecoverable` |
+| "…or picks between competing versions with the same sequence number" | `repair_refuses_merge` |
+| "a successful repair leaves the best version's contents unchanged" | `repair_republishes_best` (the version chosen is the best of the full map; new seqnum above every share in it), `download_version_exact` + `repair_uploads_best_or_nothing` (what is downloaded — from whatever servermap `download_version` ends up consulting — is that version or the repair fails); byte-level equality of download/upload is C09/C10 territory: monitor only here |
+| "…and recoverable from N distinct shares" | composition, stated in C47: `update_goal_covers` (the republish has a proxy for every share number < N) + `success_implies_k_stored` (success ⇒ ≥ k of them stored; all N only if no request failed — `bookkeeping_sound`); that all N are stored after a fault-free repair is monitored on the grid, not a theorem |
+| verify finds every corrupt share | not covered (observed: the verifier lists only the first corrupt share it meets; health is still reported False) |
+-/
 namespace Tahoe.C14
 open Tahoe.Mutable Tahoe.Mutable.ServerMap Tahoe.Mutable.Check
 
@@ -150,5 +162,43 @@ theorem repair_republishes_best (sm : ServerMap) (force wk : Bool) :
 
 example : repairDecide smNewer true true = .republish v3 6 ∧ repairDecide smHealthy false true = .republish v3 4 ∧
     repairDecide smHealthy false false = .needWritecap := by decide
+
+/-- `download_version(servermap, v)` reads `v` or fails — whatever servermap it ends up consulting (the one handed
+    in, or the fresh MODE_READ survey that replaces a map made in another mode).  In particular the contents the
+    repairer hands to `upload` are those of the version it chose from its full map, or the repair fails with
+    `UnrecoverableFileError` and writes nothing: a partial survey that cannot see the best version never makes the
+    repair republish an older one. -/
+theorem download_version_exact (smRead : ServerMap) (v : VerInfo) :
+    (∀ w, getVersion smRead (some v) = some w → w = v ∧ smRead.Located v ∧ v.k ≤ smRead.distinctShnums v) ∧
+    (getVersion smRead (some v) = none ↔ ¬ (smRead.Located v ∧ v.k ≤ smRead.distinctShnums v)) := by
+  simp only [getVersion]
+  by_cases hm : v ∈ smRead.recoverable
+  · simp only [hm, if_true]
+    refine ⟨fun w h => ?_, ?_⟩
+    · simp only [Option.some.injEq] at h
+      exact ⟨h.symm, (mem_recoverable smRead v).mp hm⟩
+    · constructor
+      · intro h; simp at h
+      · intro h; exact absurd ((mem_recoverable smRead v).mp hm) h
+  · simp only [hm, if_false]
+    refine ⟨fun w h => by simp at h, ?_⟩
+    constructor
+    · intro _ hrec; exact hm ((mem_recoverable smRead v).mpr hrec)
+    · intro _; trivial
+
+/-- the stale-head shape: the full map sees seq 5 (recoverable) and seq 3; the partial read map only seq 3 -/
+example : repairDecide { known := [((10, 0), v3), ((11, 1), v3), ((12, 0), v5), ((13, 1), v5)] } false true = .republish v5 6 ∧
+    getVersion { known := [((10, 0), v3), ((11, 1), v3)] } (some v5) = none ∧
+    getVersion { known := [((10, 0), v3), ((11, 1), v3)] } none = some v3 := by decide
+
+/-- Composition: whatever map the download consults, a repair that goes ahead uploads the contents of the best
+    version of the full map or nothing. -/
+theorem repair_uploads_best_or_nothing (smFull smRead : ServerMap) (force wk : Bool) (b : VerInfo) (s : Nat)
+    (_h : repairDecide smFull force wk = .republish b s) :
+    getVersion smRead (some b) = some b ∨ getVersion smRead (some b) = none := by
+  simp only [getVersion]
+  by_cases hm : b ∈ smRead.recoverable
+  · left; simp [hm]
+  · right; simp [hm]
 
 end Tahoe.C14
